@@ -17,7 +17,9 @@ Inductive hval : Type :=
 | HFlt (is32 : bool) (f : f64)
 | HSlice (et : Z) (isnil : bool) (l : list hval)  (* []T with element type code et; nil or not *)
 | HMap (isnil : bool) (m : list (str * hval))     (* map[string]interface{} *)
-| HPtr (isnil : bool).                            (* *int: nil, or pointing to some int *)
+| HPtr (isnil : bool)                             (* *int: nil, or pointing to some int *)
+| HOpaque (id : Z) (zero : bool).                 (* one fixed value of a type outside the kinds above (complex, chan, func, struct,
+                                                     array ...): id names the value, zero says whether it is its type's zero value *)
 
 Definition ikind_code (k : ikind) : Z :=
   match k with KInt => 0 | KInt8 => 1 | KInt16 => 2 | KInt32 => 3 | KInt64 => 4
@@ -146,6 +148,7 @@ Fixpoint hdeep_eq_fuel (fuel : nat) (a b : hval) : bool :=
           Bool.eqb n1 n2 && Nat.eqb (length m1) (length m2) &&
           forallb (fun kv => existsb (fun kv2 => Z.eqb (fst kv) (fst kv2) && hdeep_eq_fuel f (snd kv) (snd kv2)) m2) m1
       | HPtr n1, HPtr n2 => Bool.eqb n1 n2      (* non-nil pointers of the harness all point to equal ints *)
+      | HOpaque i _, HOpaque j _ => Z.eqb i j   (* the harness builds one value per id, each deeply equal to itself *)
       | _, _ => false
       end
   end.
@@ -171,11 +174,12 @@ Definition convert (d target : hval) : option hval :=       (* d converted to th
       Some (HSlice 6 false (map (fun z => HInt KUint8 z) (h_bytes HO s)))
   | HMap _ _, HMap _ _ => Some d
   | HPtr _, HPtr _ => Some d
+  | HOpaque i _, HOpaque j _ => if Z.eqb i j then Some d else None     (* the opaque values have pairwise inconvertible types *)
   | _, _ => None
   end.
 
 Definition hkind (v : hval) : Z :=
-  match v with HNil => 0 | HBool _ => 1 | HStr _ => 2 | HInt _ _ => 3 | HFlt _ _ => 4 | HSlice _ _ _ => 5 | HMap _ _ => 6 | HPtr _ => 7 end.
+  match v with HNil => 0 | HBool _ => 1 | HStr _ => 2 | HInt _ _ => 3 | HFlt _ _ => 4 | HSlice _ _ _ => 5 | HMap _ _ => 6 | HPtr _ => 7 | HOpaque i _ => 8 + i end.
 
 Definition is_numeric (v : hval) : bool := match v with HInt _ _ | HFlt _ _ => true | _ => false end.
 
@@ -247,6 +251,7 @@ Definition is_zero (v : hval) : option bool :=            (* None: invalid refle
   | HSlice _ isnil _ => Some isnil
   | HMap isnil _ => Some isnil
   | HPtr isnil => Some isnil
+  | HOpaque _ z => Some z
   end.
 
 Definition required_h (v : hval) : bool := match is_zero v with None => true | Some z => z end.
@@ -295,6 +300,7 @@ Fixpoint value_eq_fuel (fuel : nat) (a b : hval) : bool :=
                  | _, _ => false
                  end) l1 l2
           | HPtr n1, HPtr n2 => Bool.eqb n1 n2
+          | HOpaque i _, HOpaque j _ => Z.eqb i j
           | HMap n1 m1, HMap n2 m2 =>
               Bool.eqb n1 n2 && Nat.eqb (length m1) (length m2) &&
               forallb (fun kv => existsb (fun kv2 => Z.eqb (fst kv) (fst kv2) && value_eq_fuel f (snd kv) (snd kv2)) m2) m1
@@ -338,6 +344,7 @@ Fixpoint get_hval_fuel (fuel : nat) (s : sx) : option hval :=
           | _, _ => None
           end
       | L [A 9; n] => match getBool n with Some n => Some (HPtr n) | None => None end
+      | L [A 10; A i; z] => match getBool z with Some z => Some (HOpaque i z) | None => None end
       | _ => None
       end
   end.
